@@ -57,6 +57,38 @@ def replay_ulist(call):
     return dict(fails=bool(bad), detail='; '.join(bad[:3]) or 'ulist(%r) %s %r agrees with the ordered-set oracle' % (u, op, xs))
 
 
+def replay_ulist_init(call):
+    """ulist.__init__: the model fixes len(xs) <= 3 and the cells xs[i]; the list is rebuilt (one python object per abstract value, plus every list of
+    length <= 3 over two symbols) and handed to ulist / a subclass with and without unique = True: DEDUP oracle, items kept, argument unchanged"""
+    from pyg_base import ulist
+
+    class MyU(ulist):
+        pass
+    variant = call['extra'][0]
+    nx = int(call.get('len_xs') or 0)
+    cands = [[str(call.get('xs%d' % i)) for i in range(nx)]] if 0 <= nx <= 3 else []
+    cands += [list(t) for n in range(4) for t in itertools.product('pq', repeat=n)]
+    bad = []
+    for xs in cands:
+        for cls in (ulist, MyU):
+            arg = list(xs)
+            try:
+                if variant.endswith('no_argument'):
+                    r, exp = (cls(unique=True) if variant.startswith('unique') else cls()), []
+                elif variant.startswith('unique'):
+                    r, exp = cls(arg, unique=True), list(xs)
+                else:
+                    r, exp = cls(arg), _dedup(xs)
+            except Exception as e:      # noqa
+                bad.append('%s(%r) [%s] raised %r' % (cls.__name__, xs, variant, e))
+                continue
+            if list(r) != exp or type(r) is not cls:
+                bad.append('%s(%r) [%s] = %s(%r), expected %r' % (cls.__name__, xs, variant, type(r).__name__, list(r), exp))
+            if arg != xs:
+                bad.append('%s(%r) [%s] changed its argument to %r' % (cls.__name__, xs, variant, arg))
+    return dict(fails=bool(bad), detail='; '.join(bad[:3]) or 'ulist constructor [%s] agrees with the oracle on %d lists' % (variant, len(cands)))
+
+
 # ----------------------------------------------------------------------------------------------- dictattr
 def _classes(name):
     from pyg_base import dictattr, Dict
@@ -271,6 +303,8 @@ def replay(call):
         return replay_apply(call)
     if kind == 'ulist':
         return replay_ulist(call)
+    if kind == 'ulist_init':
+        return replay_ulist_init(call)
     if kind == 'dictattr':
         return replay_dictattr(call)
     if kind == 'call':
